@@ -250,7 +250,27 @@ func (w *World) fieldAccesses(g guardedField) []fieldAccess {
 							out = append(out, fieldAccess{fn, u, fa, true, fname})
 						}
 					case *ssa.UnOp:
-						out = append(out, fieldAccess{fn, u, fa, false, fname})
+						// loading a map or slice and then writing through it is a write of the guarded state
+						wr := false
+						for _, r2 := range *u.Referrers() {
+							switch u2 := r2.(type) {
+							case *ssa.MapUpdate:
+								if u2.Map == ssa.Value(u) {
+									wr = true
+								}
+							case *ssa.IndexAddr:
+								for _, r3 := range *u2.Referrers() {
+									if st, ok := r3.(*ssa.Store); ok && st.Addr == ssa.Value(u2) {
+										wr = true
+									}
+								}
+							case ssa.CallInstruction:
+								if bi, ok := u2.Common().Value.(*ssa.Builtin); ok && (bi.Name() == "delete" || bi.Name() == "clear") && len(u2.Common().Args) > 0 && u2.Common().Args[0] == ssa.Value(u) {
+									wr = true
+								}
+							}
+						}
+						out = append(out, fieldAccess{fn, u, fa, wr, fname})
 					case *ssa.MapUpdate:
 						out = append(out, fieldAccess{fn, u, fa, true, fname})
 					default:
@@ -413,6 +433,13 @@ func guardRule(w *World, r *Report, e *Engine, rule string, g guardedField) {
 						}
 						ok := st[key] >= need
 						why := "caller holds " + st.String()
+						if st[key] > 0 && st[key] < need {
+							if !checked[id] {
+								checked[id] = true
+								r.bad(rule, fn, construct, in.Pos(), "a method that writes the guarded state is called while only the read lock is held (held: "+st.String()+"): the write runs alongside other readers")
+							}
+							continue
+						}
 						if pi, isP := paramObj(fn, recv); !ok && isP {
 							// same object: the caller becomes lock-required itself
 							if required[fn] < need {
